@@ -402,6 +402,32 @@ PROPERTIES["C23"] = dict(
     smt=dict(module="props_c23", K=6, N=24, timeout_ms=600000),
 )
 
+# --------------------------------------------------------------------------- C14
+PROPERTIES["C14"] = dict(
+    title="Reserved-size padding is exact and signing succeeds for any ample reserve",
+    level="model_checking",
+    engine="smt",
+    technique="symbolic execution of the Rust source (syn AST -> bit-vector SMT) of pad_cose_sig and DataHash::pad_to_size over a size model of the CBOR serialiser, decided by z3; native replay",
+    level_text=("Bounded symbolic checking of the two padding routines' SOURCE.  The unpadded size and the reserved size are symbolic 64-bit "
+                "integers, byte vectors are abstracted to their length (the routines never look at contents) and the CBOR serialiser is replaced "
+                "by its size function (1/2/3/5/9-byte length prefixes), validated on every run against the real serialiser.  z3 decides for ALL "
+                "unpadded sizes and ALL reserves in the bound that a reserve equal to the unpadded size or at least 5 bytes above it is accepted, "
+                "that an accepted reserve is padded to EXACTLY the reserved size, and that nothing panics (arithmetic, unwinding and recursion "
+                "bounds are obligations).  The CBOR prefix boundaries 24, 256 and 65536 are inside the bound for pad_cose_sig."),
+    level_note=("pad_cose_sig: unpadded size 16..2^20, reserve up to +2^17 (quick) / +2^24 (thorough); two header shapes (empty, one unrelated entry).  "
+                "DataHash::pad_to_size pushes one byte per iteration, so its claim is bounded to +40 (quick) / +300 (thorough) bytes from concrete "
+                "starting pads (0, 20 / 0, 10, 23, 200, 250): the 65536 boundary is outside for the data-hash routine.  Reserves 1..4 bytes above the "
+                "unpadded size are unrepresentable in CBOR (smallest entry is 5 bytes) and an error is required there.  The store-level equal-size "
+                "re-serialisation check and real signing are outside (whole pipeline)."),
+    scope="sdk/src/crypto/cose/sign.rs pad_cose_sig; sdk/src/assertions/data_hash.rs DataHash::pad_to_size",
+    outside=["Builder::sign with a custom reserve (whole pipeline with real signing)", "store.rs start_save_stream size re-check",
+             "DataHash padding beyond the tier bound (65536-byte boundary)", "unprotected headers with 24 or more entries (map header grows)"],
+    assumptions=["z3 is sound for QF_BV", "the symbolic interpreter (symex.py) is faithful for the constructs it accepts (fails closed otherwise)",
+                 "model: CBOR size function for byte strings and text labels shorter than 24 characters (validated against coset / c2pa_cbor on the vectors of every run)"],
+    harnesses=[],
+    smt=dict(module="props_c14", K=6, N=24, timeout_ms=900000),
+)
+
 # --------------------------------------------------------------------------- C12
 PROPERTIES["C12"] = dict(
     title="Hash-binding layout maps are ordered, disjoint and cover the file",
